@@ -181,7 +181,7 @@ class SQLiteBuilder(SQLBuilder):
         if type_name is not None: result = 'CAST(', result, ' as ', type_name, ')'
         return result
     def JSON_NONZERO(builder, expr):
-        return builder(expr), ''' NOT IN ('null', 'false', '0', '""', '[]', '{}')'''
+        return builder(expr), ''' NOT IN ('null', 'false', '0', '0.0', '-0.0', '""', '[]', '{}')'''
     def JSON_ARRAY_LENGTH(builder, value):
         func_name = 'json_array_length' if builder.json1_available else 'py_json_array_length'
         return func_name, '(', builder(value), ')'
